@@ -23,6 +23,12 @@ def dt_from_text(text, rng, kind=None, over_precise=False):
     naive = ORIGIN + dt.timedelta(microseconds=us)
     if us % (86400 * 10 ** 6) == 0 and rng.random() < 0.5:
         return naive.date()                            # a date means midnight UTC
+    if over_precise and rng.random() < 0.35:
+        # the library's own timestamp class, carrying precision metadata from wherever it was taken (another object's property)
+        import stix2.utils as U
+        p, c = rng.choice([("any", "exact"), ("millisecond", "min"), ("millisecond", "exact"), ("second", "min"), ("second", "exact")])
+        return U.STIXdatetime(naive.replace(tzinfo=dt.timezone.utc), precision=U.Precision[p.upper()],
+                              precision_constraint=U.PrecisionConstraint[c.upper()])
     r = rng.random()
     if r < 0.3:
         return naive.replace(tzinfo=dt.timezone.utc)
